@@ -18,7 +18,7 @@ META = {
     "id": "C04",
     "level": "proof",
     "technique": "Coq conservation theorem by induction over arbitrary runs of the REPEX state-machine model (association-list algebra over Q) + trace validation of the real treat_output/write_to_pathens and a file-level conservation oracle",
-    "text": "Unbounded theorems: for every reachable state and every run (any interleaving of picks and completions, any accept/reject outcomes) one completed step credits to column c exactly the column-c entries of P over idle slots — hence one unit for an idle column and nothing for a busy one when P has the column sums C02 establishes — picks credit nothing, records are moved to the data file exactly when a path is replaced, a path has at most one row and no live record afterwards; therefore data rows + live records sum per column to the number of completed steps at which the column was idle (with one worker: every step). The model is tied to /repo by trace validation (state incl. all frac vectors after every real treat_output, P compared with the exact permanent ratios) and the statement is evaluated on the recorded states and on the files the program wrote (infretis_data.txt, restart.toml), across restarts.",
+    "text": "Unbounded theorems: the assignment with which inf_retis undoes its row sorting is the inverse of the row selection for every permutation, in both directions (row i of P belongs to the path in row i of the weight matrix; the selection applied twice is refuted on a 3-cycle); for every reachable state and every run (any interleaving of picks and completions, any accept/reject outcomes) one completed step credits to column c exactly the column-c entries of P over idle slots — hence one unit for an idle column and nothing for a busy one when P has the column sums C02 establishes — picks credit nothing, records are moved to the data file exactly when a path is replaced, a path has at most one row and no live record afterwards; therefore data rows + live records sum per column to the number of completed steps at which the column was idle (with one worker: every step). The model is tied to /repo by trace validation (state incl. all frac vectors after every real treat_output, P compared with the exact permanent ratios) and the statement is evaluated on the recorded states and on the files the program wrote (infretis_data.txt, restart.toml), across restarts.",
     "note": "Trusted: Coq kernel; extraction + OCaml driver; harness/recorder. P is an input of the model's step; in the tie it is computed by the extracted Coq model of inf_retis (model/PermM.v, property C02) from the recorded weight matrix and busy flags, cross-checked against exact rational permanent ratios and the implementation's own P; the hypothesis Pcols/Prows (column sums over idle rows are 1/0, full-length rows) is what C02 proves for the permanent ratios and is additionally checked numerically on every recorded step (implementation P vs exact ratios, 1e-10). longdouble rounding and the decimal rendering str(longdouble) are outside the model (tolerance 1e-9 per step, 1e-7 relative on file totals). The '----' rendering is read back as 0.",
     "design_ref": "4/C04",
 }
